@@ -53,6 +53,13 @@ pub(crate) fn buf_init(globals: Weak<Globals>) {
     unsafe {
         MOD_CTX.reset(None);
     }
+
+    // The clock is a process-wide static that `Builder::build` only sets once the
+    // network has been built. Without this reset everything that reads the clock
+    // while the network is built (module constructors, `Message::default()`,
+    // `ModuleRef::activate` in `SimBuilder::raw`) sees the end time of whatever
+    // simulation ran before in this process.
+    SimTime::set_now(SimTime::MIN);
 }
 
 pub(crate) fn buf_drop() {
